@@ -585,9 +585,10 @@ impl SequenceMatcher {
                 // This maintains the two-pointer invariant (b_ptr points to the last B that could match)
                 b_ptr = latest_b_ptr;
             } else {
-                // B is not before A (ts_b >= ts_a), advance b_ptr to find earlier B events
-                // Since indices are sorted by timestamp, we need to advance b_ptr
-                b_ptr += 1;
+                // B is not before A (ts_b >= ts_a). Indices are sorted by timestamp, so no later
+                // B precedes this A either: A has no match. Move on to the next A and keep B,
+                // which may still precede a later A.
+                a_ptr += 1;
             }
         }
 
